@@ -48,10 +48,13 @@ Section Process.
   Hypothesis hash_faithful : forall c1 c2, hash c1 = hash c2 ->
                                            forall q t f, xform c1 q t f = xform c2 q t f.
   Hypothesis xform_frame : forall c q t f f',
+      fst (xform c q t f) <> None ->
       (forall d, In d (snd (xform c q t f)) -> fs_get f' d = fs_get f d) ->
       xform c q t f' = xform c q t f.
-  Hypothesis deps_exist : forall c q t f d, In d (snd (xform c q t f)) -> fs_get f d <> None.
-  Hypothesis deps_outside : forall c q t f d, In d (snd (xform c q t f)) -> starts_with outp d = false.
+  Hypothesis deps_exist : forall c q t f d,
+      fst (xform c q t f) <> None -> In d (snd (xform c q t f)) -> fs_get f d <> None.
+  Hypothesis deps_outside : forall c q t f d,
+      fst (xform c q t f) <> None -> In d (snd (xform c q t f)) -> starts_with outp d = false.
 
   Notation out_of := (out_of inp outp).
   Notation is_source := (is_source inp).
@@ -104,7 +107,7 @@ Section Process.
 
   Lemma good_same_xform c c' f it :
     (forall q t g, xform c q t g = xform c' q t g) -> good c f it -> good c' f it.
-  Proof. intros H [txt [H1 [H2 H3]]]. exists txt. rewrite <- H. auto. Qed.
+  Proof. intros H [txt [o [H1 [H2 [H3 H4]]]]]. exists txt, o. rewrite <- H. auto. Qed.
 
   Lemma inv_after_hash c0 d u w :
     inv c0 d u w ->
@@ -135,6 +138,8 @@ Section Process.
       + apply (inv_user _ _ _ _ _ _ _ _ _ _ _ I).
       + apply (inv_ufs_E _ _ _ _ _ _ _ _ _ _ _ I).
       + apply (inv_ufs_out _ _ _ _ _ _ _ _ _ _ _ I).
+      + intros i it Hi. rewrite Hg in Hi. destruct (get_slot (slots t) i); [|discriminate].
+        cbn in Hi. inversion Hi; subst. discriminate.
     - (* same hash (or first pass): the finished items are those of an equivalent configuration *)
       assert (Hx : forall i it, get_slot (slots t) i = Some it -> is_done (i_st it) = true ->
                                 forall q tx g, xform c0 q tx g = xform c q tx g).
@@ -152,6 +157,7 @@ Section Process.
       + apply (inv_user _ _ _ _ _ _ _ _ _ _ _ I).
       + apply (inv_ufs_E _ _ _ _ _ _ _ _ _ _ _ I).
       + apply (inv_ufs_out _ _ _ _ _ _ _ _ _ _ _ I).
+      + apply (inv_noerr _ _ _ _ _ _ _ _ _ _ _ I).
   Qed.
 
   (** ** clean_files *)
@@ -217,8 +223,8 @@ Section Process.
     - intros i it Hi Hd Hc. pose proof (inv_good _ _ _ _ _ _ _ _ _ _ _ I _ _ Hi Hd Hc) as G.
       apply (good_frame cfg xform xform_frame c f); [exact G| | |].
       + apply Hkeep. eapply item_src_not_out; eassumption.
-      + intros x Hx. apply Hkeep. destruct G as [txt [_ [Hdeps _]]]. apply Hdeps in Hx.
-        eapply deps_outside; exact Hx.
+      + intros x Hx. apply Hkeep. destruct G as [txt [o [_ [Hok [Hdeps _]]]]]. apply Hdeps in Hx.
+        eapply deps_outside; [|exact Hx]. congruence.
       + rewrite Hget. destruct (mem_path (i_out it) (rmf t)) eqn:Em; [|reflexivity].
         apply mem_path_In in Em. exfalso. eapply (wf_done_rmf _ _ _ _ W); eassumption.
     - intros i it Hi Hc. rewrite Hkeep; [eapply (inv_exists _ _ _ _ _ _ _ _ _ _ _ I); eassumption|].
@@ -242,6 +248,7 @@ Section Process.
     - intros p Hp. rewrite Hkeep by exact Hp. apply (inv_user _ _ _ _ _ _ _ _ _ _ _ I p Hp).
     - apply (inv_ufs_E _ _ _ _ _ _ _ _ _ _ _ I).
     - apply (inv_ufs_out _ _ _ _ _ _ _ _ _ _ _ I).
+    - apply (inv_noerr _ _ _ _ _ _ _ _ _ _ _ I).
   Qed.
 
   (** ** one pass of the work loop *)
@@ -256,6 +263,7 @@ Section Process.
 
   Lemma advance_spec c it f txt :
     i_deps it = [] -> fs_get f (i_src it) = Some txt ->
+    fst (xform c (i_src it) txt f) <> None ->
     starts_with outp (i_src it) = false -> starts_with outp (i_out it) = true ->
     good c (snd (advance cfg xform c it f)) (fst (advance cfg xform c it f)) /\
     is_done (i_st (fst (advance cfg xform c it f))) = true /\
@@ -263,25 +271,21 @@ Section Process.
     i_out (fst (advance cfg xform c it f)) = i_out it /\
     (forall p, p <> i_out it -> fs_get (snd (advance cfg xform c it f)) p = fs_get f p).
   Proof.
-    intros Hd Hs Hso Hoo. unfold advance. rewrite Hs.
+    intros Hd Hs Hok Hso Hoo. unfold advance. rewrite Hs.
     assert (Hne : i_src it <> i_out it) by (intros Heq; rewrite Heq in Hso; congruence).
-    destruct (xform c (i_src it) txt f) as [r ds] eqn:Ex. destruct r as [o|]; cbn [fst snd].
-    - assert (Hx : xform c (i_src it) txt (fs_write f (i_out it) o) = xform c (i_src it) txt f).
-      { apply xform_frame. intros x Hx. rewrite fs_get_write.
-        destruct (path_eqb (i_out it) x) eqn:Ep; [|reflexivity]. apply path_eqb_eq in Ep. subst x.
-        apply deps_outside in Hx. congruence. }
-      split; [|repeat split; try reflexivity].
-      + exists txt. cbn [i_src i_out i_st i_deps]. rewrite fs_get_write.
-        assert (Hp : path_eqb (i_out it) (i_src it) = false) by (apply path_eqb_neq; congruence).
-        rewrite Hp, Hx, Ex. cbn [fst snd]. split; [exact Hs|]. split.
-        * intros x. rewrite Hd, app_nil_r. tauto.
-        * split; [reflexivity|]. rewrite fs_get_write, path_eqb_refl. reflexivity.
-      + intros p Hp. rewrite fs_get_write. destruct (path_eqb (i_out it) p) eqn:Ep; [|reflexivity].
-        apply path_eqb_eq in Ep. congruence.
-    - split; [|repeat split; try reflexivity].
-      exists txt. cbn [i_src i_out i_st i_deps]. rewrite Ex. cbn [fst snd]. split; [exact Hs|]. split.
+    destruct (xform c (i_src it) txt f) as [r ds] eqn:Ex. destruct r as [o|]; cbn [fst snd] in *; [|congruence].
+    assert (Hx : xform c (i_src it) txt (fs_write f (i_out it) o) = xform c (i_src it) txt f).
+    { apply xform_frame; [rewrite Ex; discriminate|]. intros x Hx. rewrite fs_get_write.
+      destruct (path_eqb (i_out it) x) eqn:Ep; [|reflexivity]. apply path_eqb_eq in Ep. subst x.
+      apply deps_outside in Hx; [congruence|rewrite Ex; discriminate]. }
+    split; [|repeat split; try reflexivity].
+    - exists txt, o. cbn [i_src i_out i_st i_deps]. rewrite fs_get_write.
+      assert (Hp : path_eqb (i_out it) (i_src it) = false) by (apply path_eqb_neq; congruence).
+      rewrite Hp, Hx, Ex. cbn [fst snd]. split; [exact Hs|]. split; [reflexivity|]. split.
       + intros x. rewrite Hd, app_nil_r. tauto.
-      + reflexivity.
+      + split; [reflexivity|]. rewrite fs_get_write, path_eqb_refl. reflexivity.
+    - intros p Hp. rewrite fs_get_write. destruct (path_eqb (i_out it) p) eqn:Ep; [|reflexivity].
+      apply path_eqb_eq in Ep. congruence.
   Qed.
 
   Definition head_item c (it : item) (f : fs) : item :=
@@ -307,6 +311,7 @@ Section Process.
     i_out it = out_of (i_src it) -> is_source (i_src it) = true ->
     (i_st it = NotStarted -> i_deps it = []) ->
     fs_get f (i_src it) <> None ->
+    (forall txt, fs_get f (i_src it) = Some txt -> fst (xform c (i_src it) txt f) <> None) ->
     (is_done (i_st it) = true -> good c f it) ->
     good c (head_fs c it f) (head_item c it f) /\
     is_done (i_st (head_item c it f)) = true /\
@@ -314,15 +319,20 @@ Section Process.
     (forall p, p <> i_out it -> fs_get (head_fs c it f) p = fs_get f p) /\
     (is_done (i_st it) = true -> head_item c it f = it).
   Proof.
-    intros Hout Hsrc Hns Hex Hgood. unfold head_item, head_fs.
+    intros Hout Hsrc Hns Hex Hok Hgood. unfold head_item, head_fs.
     destruct (is_done (i_st it)) eqn:Ed.
     - repeat split; auto.
     - assert (Hst : i_st it = NotStarted) by (destruct (i_st it); [reflexivity|discriminate|discriminate]).
       destruct (fs_get f (i_src it)) as [txt|] eqn:Es; [|congruence].
       assert (Hso : starts_with outp (i_src it) = false) by (eapply source_not_out; eassumption).
       assert (Hoo : starts_with outp (i_out it) = true) by (rewrite Hout; apply rebase_starts).
-      destruct (advance_spec c it f txt (Hns Hst) Es Hso Hoo) as [G [Hd [H1 [H2 H3]]]].
+      destruct (advance_spec c it f txt (Hns Hst) Es (Hok txt eq_refl) Hso Hoo) as [G [Hd [H1 [H2 H3]]]].
       repeat split; auto. discriminate.
+  Qed.
+
+  Lemma good_deps_outside c f it x : good c f it -> In x (i_deps it) -> starts_with outp x = false.
+  Proof.
+    intros [txt [o [_ [Hok [Hdeps _]]]]] Hx. apply Hdeps in Hx. eapply deps_outside; [|exact Hx]. congruence.
   Qed.
 
   Lemma sweep_spec c : forall s i e f done s2 e2 f' d2,
@@ -332,6 +342,9 @@ Section Process.
     (forall k it, nth k s None = Some it -> i_st it = NotStarted -> i_deps it = []) ->
     (forall k it, nth k s None = Some it -> fs_get f (i_src it) <> None) ->
     (forall k it, nth k s None = Some it -> is_done (i_st it) = true -> good c f it) ->
+    (forall k it txt g, nth k s None = Some it -> fs_get f (i_src it) = Some txt ->
+                        (forall p, starts_with outp p = false -> fs_get g p = fs_get f p) ->
+                        fst (xform c (i_src it) txt g) <> None) ->
     List.length s2 = List.length s /\
     d2 = (done + count_pending s)%nat /\
     (forall k, nth k s None = None -> nth k s2 None = None) /\
@@ -345,7 +358,7 @@ Section Process.
                  In j (ext_get e q) \/
                  exists k it2, nth k s2 None = Some it2 /\ j = (i + k)%nat /\ In q (i_deps it2)).
   Proof.
-    induction s as [|o s IH]; intros i e f done s2 e2 f' d2 Hsw P1 P2 P3 P4 P5.
+    induction s as [|o s IH]; intros i e f done s2 e2 f' d2 Hsw P1 P2 P3 P4 P5 P6.
     - cbn [sweep] in Hsw. inversion Hsw; subst. cbn [count_pending filter List.length].
       split; [reflexivity|]. split; [lia|]. split; [intros k _; destruct k; reflexivity|].
       split; [intros k it Hk; destruct k; discriminate|]. split; [reflexivity|]. split; [reflexivity|].
@@ -356,8 +369,9 @@ Section Process.
         destruct (P1 0%nat it eq_refl) as [Hout Hsrc].
         assert (Hso : starts_with outp (i_src it) = false) by (eapply source_not_out; eassumption).
         assert (Hoo : starts_with outp (i_out it) = true) by (rewrite Hout; apply rebase_starts).
-        destruct (head_spec c it f Hout Hsrc (P3 0%nat it eq_refl) (P4 0%nat it eq_refl) (P5 0%nat it eq_refl))
-          as [G1 [Hd1 [Hs1 [Ho1 [Hf1 Hsame1]]]]].
+        destruct (head_spec c it f Hout Hsrc (P3 0%nat it eq_refl) (P4 0%nat it eq_refl)) as [G1 [Hd1 [Hs1 [Ho1 [Hf1 Hsame1]]]]].
+        { intros txt Htxt. apply (P6 0%nat it txt f eq_refl Htxt). reflexivity. }
+        { apply (P5 0%nat it eq_refl). }
         set (it1 := head_item c it f) in *. set (f1 := head_fs c it f) in *.
         destruct (sweep cfg xform c s (S i) (fold_left (fun e0 d => ext_link e0 d i) (i_deps it1) e) f1
                         (head_done it done)) as [[[s2' e2'] f2'] d2'] eqn:Etail.
@@ -381,9 +395,13 @@ Section Process.
           destruct (P1 (S k) itk Hk) as [_ Hsrck].
           apply (good_frame cfg xform xform_frame c f); [exact Gk| | |].
           - apply Hf1out. eapply source_not_out; eassumption.
-          - intros x Hx. apply Hf1out. destruct Gk as [txt [_ [Hdeps _]]]. apply Hdeps in Hx.
-            eapply deps_outside; exact Hx.
+          - intros x Hx. apply Hf1out. eapply good_deps_outside; eassumption.
           - apply Hf1. apply (Hother k itk Hk). }
+        { intros k itk txt g Hk Htxt Hg. destruct (P1 (S k) itk Hk) as [_ Hsrck].
+          assert (Hsk : starts_with outp (i_src itk) = false) by (eapply source_not_out; eassumption).
+          apply (P6 (S k) itk txt g Hk).
+          - rewrite <- Hf1out; assumption.
+          - intros p Hp. rewrite Hg by exact Hp. apply Hf1out. exact Hp. }
         split; [cbn [List.length]; lia|]. split.
         { rewrite count_pending_cons, C2. unfold head_done. destruct (is_done (i_st it)); lia. }
         split; [intros k Hk; destruct k; [discriminate|cbn; apply C3; exact Hk]|]. split.
@@ -392,8 +410,7 @@ Section Process.
             split; [reflexivity|]. split; [exact Hs1|]. split; [exact Ho1|]. split; [exact Hd1|]. split; [|exact Hsame1].
             apply (good_frame cfg xform xform_frame c f1); [exact G1| | |].
             + apply C5. rewrite Hs1. exact Hso.
-            + intros x Hx. apply C5. destruct G1 as [txt [_ [Hdeps _]]]. apply Hdeps in Hx.
-              eapply deps_outside; exact Hx.
+            + intros x Hx. apply C5. eapply good_deps_outside; eassumption.
             + apply C6. intros k itk Hk' Heq. rewrite Ho1 in Heq. eapply Hother; eassumption.
           - cbn in Hk. destruct (C4 k itk Hk) as [it2 [H1 H2]]. exists it2. cbn [nth]. auto. }
         split.
@@ -422,6 +439,7 @@ Section Process.
         { intros k itk Hk. apply (P3 (S k) itk Hk). }
         { intros k itk Hk. apply (P4 (S k) itk Hk). }
         { intros k itk Hk. apply (P5 (S k) itk Hk). }
+        { intros k itk txt g Hk. apply (P6 (S k) itk txt g Hk). }
         split; [cbn [List.length]; lia|]. split; [rewrite count_pending_cons; lia|].
         split; [intros k Hk; destruct k; [reflexivity|cbn; apply C3; exact Hk]|]. split.
         { intros k itk Hk. destruct k as [|k]; [discriminate|]. cbn in Hk.
@@ -446,13 +464,14 @@ Section Process.
 
   Lemma step_Process c0 d u w :
     inv c0 d u w -> is_clean d = true ->
+    healthy cfg xform inp (w_cfg w) u = true ->
     exists t' f',
       process cfg hash xform (w_cfg w) (w_tree w) (w_fs w) = Some (t', f') /\
       inv (w_cfg w) d u (mkWorld f' (w_cfg w) t') /\ rmf t' = [] /\
       (forall j it, get_slot (slots t') j = Some it -> is_done (i_st it) = true).
   Proof.
-    intros I Hclean. destruct (clean_dirty d Hclean) as [HdC [HdN HdR]].
-    set (c := w_cfg w). set (t := w_tree w). set (f := w_fs w).
+    intros I Hclean Hhealthy. destruct (clean_dirty d Hclean) as [HdC [HdN HdR]].
+    set (c := w_cfg w) in *. set (t := w_tree w). set (f := w_fs w).
     pose proof (inv_after_hash c0 d u w I) as I1. cbv zeta in I1. fold c t f in I1.
     set (t1 := set_hash (if cfg_changed t (hash c) then reset t else t) (Some (hash c))) in *.
     pose proof (inv_after_clean c d u (mkWorld f c t1) I1) as I2. cbv zeta in I2. cbn [w_tree w_fs w_cfg] in I2.
@@ -477,6 +496,23 @@ Section Process.
       { intros k it Hk. apply (wf_notstarted _ _ _ _ W2 k it Hk). }
       { intros k it Hk. apply (inv_exists _ _ _ _ _ _ _ _ _ _ _ I2 k it Hk). rewrite HdR. reflexivity. }
       { intros k it Hk Hd. apply (inv_good _ _ _ _ _ _ _ _ _ _ _ I2 k it Hk Hd). apply Hcleanitem. }
+      { (* every pending transformation succeeds: the project is healthy *)
+        intros k it txt g Hk Htxt Hg.
+        destruct (wf_item _ _ _ _ W2 k it Hk) as [_ [Hs _]].
+        assert (Hso : starts_with outp (i_src it) = false) by (eapply source_not_out; eassumption).
+        assert (Hu : fs_get u (i_src it) = Some txt).
+        { rewrite <- (inv_user _ _ _ _ _ _ _ _ _ _ _ I2); [exact Htxt|exact Hso]. }
+        assert (Hin : In (i_src it) (fs_collect u inp)).
+        { apply fs_collect_spec. unfold Worker.is_source in Hs. apply andb_true_iff in Hs as [H1 H2].
+          split; [congruence|auto]. }
+        unfold healthy in Hhealthy. rewrite forallb_forall in Hhealthy. specialize (Hhealthy _ Hin).
+        rewrite Hu in Hhealthy.
+        destruct (fst (xform c (i_src it) txt u)) as [o|] eqn:Ex; [|discriminate].
+        assert (Hx : xform c (i_src it) txt g = xform c (i_src it) txt u).
+        { apply xform_frame; [congruence|]. intros x Hx.
+          assert (Hxo : starts_with outp x = false) by (eapply deps_outside; [|exact Hx]; congruence).
+          rewrite Hg by exact Hxo. apply (inv_user _ _ _ _ _ _ _ _ _ _ _ I2 x Hxo). }
+        rewrite Hx, Ex. discriminate. }
       assert (Hd3 : Nat.eqb d3 (count_pending (slots t1)) = true).
       { apply Nat.eqb_eq. rewrite C2, Hsl2. reflexivity. }
       rewrite Hd3. set (t3 := set_ext (set_slots t2 s3) e3).
@@ -541,6 +577,8 @@ Section Process.
         * intros p Hp. rewrite C5 by exact Hp. apply (inv_user _ _ _ _ _ _ _ _ _ _ _ I2 p Hp).
         * apply (inv_ufs_E _ _ _ _ _ _ _ _ _ _ _ I2).
         * apply (inv_ufs_out _ _ _ _ _ _ _ _ _ _ _ I2).
+        * intros i it3 Hi. destruct (Hback _ _ Hi) as [it [_ [_ [_ [_ [[txt [o [_ [_ [_ [Hst _]]]]]] _]]]]]].
+          rewrite Hst. discriminate.
       + intros j it3 Hj. cbn [set_rmf set_ext set_slots t3 slots] in Hj.
         destruct (Hback _ _ Hj) as [it [_ [_ [_ [Hd _]]]]]. exact Hd.
   Qed.
